@@ -122,6 +122,8 @@ impl<'i> RecipeCollector<'i, '_> {
 
         let events = events.by_ref();
         while let Some(event) = events.next() {
+            #[cfg(cooklang_verif)]
+            crate::verif_hooks::point("event");
             match event {
                 Event::YAMLFrontMatter(yaml_text) => {
                     self.old_style_metadata = true;
